@@ -200,7 +200,20 @@ func (c09) Exec(c *core.Case) (out *core.Outcome) {
 	}
 	mustOK(root.Do(s3c.PutVersioning(bkt, "Enabled")), "enable versioning")
 	suspended := false
-	viol := func(kind, format string, a ...any) { o.Violate("versioning", "C09/"+kind, format, a...) }
+	everNull := len(p.PrePuts) > 0
+	ctxOf := func() string {
+		switch {
+		case everNull:
+			return "null-version-or-suspension-involved"
+		case c.Cfg.Sidecar:
+			return "sidecar-store"
+		}
+		return "plain"
+	}
+	viol := func(kind, format string, a ...any) {
+		kind = strings.TrimSuffix(kind, "/with-null-version")
+		o.Violate("versioning", "C09/"+kind+"/"+ctxOf(), format, a...)
+	}
 	dropNull := func(k int) {
 		var n []*c09Ver
 		for _, v := range stacks[k] {
@@ -271,6 +284,7 @@ func (c09) Exec(c *core.Case) (out *core.Outcome) {
 		case "suspend":
 			if cl.Do(s3c.PutVersioning(bkt, "Suspended")).Resp.OK() {
 				suspended = true
+				everNull = true
 			}
 		case "enable":
 			if cl.Do(s3c.PutVersioning(bkt, "Enabled")).Resp.OK() {
